@@ -31,6 +31,7 @@ def run(ctx):
     vlib.mc_check(ctx, "GcProto", "GcProto_neg_track.cfg", expect_violation="GcNeverDeletesNeeded", timeout=300, workers=4)
     vlib.mc_check(ctx, "ManagedProto", "ManagedProto.cfg", timeout=120, workers=2)
     vlib.mc_check(ctx, "ManagedProto", "ManagedProto_negF50.cfg", expect_violation="NoUnmanagedFile", timeout=120, workers=2)
+    vlib.mc_check(ctx, "ManagedProto", "ManagedProto_negF50b.cfg", expect_violation="NoUnmanagedFile", timeout=120, workers=2)
     vlib.mc_check(ctx, "MC_Storage", "MC_Storage.cfg", timeout=120, workers=2)
     vlib.mc_check(ctx, "MC_Storage", "MC_Storage_negF4.cfg", expect_violation="CrashNoOrphan", timeout=120, workers=2)
     # interleaved builder / updater / GC: GcTight, NeverDeletesNeeded, NeverDeletesBuilding, OrphanIsF4Class
